@@ -1,0 +1,155 @@
+//! Hooks for runtime verification, only compiled with the `verif_hooks` feature.
+//!
+//! - [`VAtomicPtr`]: the atomic pointer of the lazy caches, it reports every operation to an
+//!   installed [`Hook`] (a scheduler can block there) and lets the hook make a weak
+//!   compare-exchange fail spuriously, as the memory model allows.
+//! - [`ArenaToken`]: a ledger of the live `Shared` arenas of the DOM.
+use std::{
+    collections::BTreeSet,
+    sync::{
+        atomic::{AtomicPtr, AtomicU64, Ordering},
+        Arc, Mutex, RwLock,
+    },
+};
+
+#[derive(Debug, Clone, Copy, PartialEq, Eq)]
+pub enum Op {
+    Load,
+    Cas,
+    CasWeak,
+}
+
+pub trait Hook: Send + Sync {
+    /// Called before the atomic operation. For `Op::CasWeak`, returning true makes it fail
+    /// spuriously (the store is not attempted).
+    fn before(&self, op: Op) -> bool;
+    /// Called after the atomic operation: whether the observed value was null, and whether a
+    /// compare-exchange succeeded.
+    fn after(&self, op: Op, seen_null: bool, ok: bool);
+}
+
+static HOOK: RwLock<Option<Arc<dyn Hook>>> = RwLock::new(None);
+
+pub fn set_hook(hook: Option<Arc<dyn Hook>>) {
+    *HOOK.write().unwrap() = hook;
+}
+
+fn hook() -> Option<Arc<dyn Hook>> {
+    HOOK.read().unwrap().clone()
+}
+
+#[derive(Debug)]
+pub struct VAtomicPtr<T>(AtomicPtr<T>);
+
+impl<T> VAtomicPtr<T> {
+    pub fn new(p: *mut T) -> Self {
+        Self(AtomicPtr::new(p))
+    }
+
+    pub fn get_mut(&mut self) -> &mut *mut T {
+        self.0.get_mut()
+    }
+
+    pub fn load(&self, order: Ordering) -> *mut T {
+        let h = hook();
+        if let Some(h) = &h {
+            h.before(Op::Load);
+        }
+        let p = self.0.load(order);
+        if let Some(h) = &h {
+            h.after(Op::Load, p.is_null(), true);
+        }
+        p
+    }
+
+    pub fn compare_exchange(
+        &self,
+        current: *mut T,
+        new: *mut T,
+        success: Ordering,
+        failure: Ordering,
+    ) -> Result<*mut T, *mut T> {
+        let h = hook();
+        if let Some(h) = &h {
+            h.before(Op::Cas);
+        }
+        let r = self.0.compare_exchange(current, new, success, failure);
+        if let Some(h) = &h {
+            let seen = match r {
+                Ok(p) | Err(p) => p,
+            };
+            h.after(Op::Cas, seen.is_null(), r.is_ok());
+        }
+        r
+    }
+
+    pub fn compare_exchange_weak(
+        &self,
+        current: *mut T,
+        new: *mut T,
+        success: Ordering,
+        failure: Ordering,
+    ) -> Result<*mut T, *mut T> {
+        let h = hook();
+        let spurious = h.as_ref().map(|h| h.before(Op::CasWeak)).unwrap_or(false);
+        let r = if spurious {
+            // a spurious failure: nothing is stored, the current value is returned
+            Err(self.0.load(failure))
+        } else {
+            self.0.compare_exchange(current, new, success, failure)
+        };
+        if let Some(h) = &h {
+            let seen = match r {
+                Ok(p) | Err(p) => p,
+            };
+            h.after(Op::CasWeak, seen.is_null(), r.is_ok());
+        }
+        r
+    }
+}
+
+static NEXT_ARENA: AtomicU64 = AtomicU64::new(1);
+static LIVE_ARENAS: Mutex<BTreeSet<u64>> = Mutex::new(BTreeSet::new());
+static ARENA_ERRORS: AtomicU64 = AtomicU64::new(0);
+
+/// A member of every `Shared` arena: registered when the arena is created, unregistered when it
+/// is dropped.
+#[derive(Debug)]
+pub struct ArenaToken(u64);
+
+impl ArenaToken {
+    pub fn id(&self) -> u64 {
+        self.0
+    }
+}
+
+impl Default for ArenaToken {
+    fn default() -> Self {
+        let id = NEXT_ARENA.fetch_add(1, Ordering::Relaxed);
+        LIVE_ARENAS.lock().unwrap().insert(id);
+        Self(id)
+    }
+}
+
+impl Drop for ArenaToken {
+    fn drop(&mut self) {
+        if !LIVE_ARENAS.lock().unwrap().remove(&self.0) {
+            // dropped twice, or never registered
+            ARENA_ERRORS.fetch_add(1, Ordering::Relaxed);
+        }
+    }
+}
+
+/// The ids of the arenas that are alive now.
+pub fn live_arenas() -> Vec<u64> {
+    LIVE_ARENAS.lock().unwrap().iter().copied().collect()
+}
+
+pub fn arena_is_live(id: u64) -> bool {
+    LIVE_ARENAS.lock().unwrap().contains(&id)
+}
+
+/// How many arenas were unregistered without being registered (double drop).
+pub fn arena_errors() -> u64 {
+    ARENA_ERRORS.load(Ordering::Relaxed)
+}
